@@ -1,0 +1,75 @@
+//! Verification hooks (cargo feature `verif`).
+//!
+//! Everything in this module is logic-free plumbing for out-of-tree property checks:
+//! an I/O tap that records the mutations issued through [`crate::io::disk::DBFile`] and thin
+//! wrappers that expose crate-private entry points (WAL, tuples, B+tree, raw pages).
+//! Nothing here is compiled unless the `verif` feature is enabled.
+
+/// I/O tap: records every mutation issued through `DBFile`.
+pub mod io {
+    use std::{
+        path::{Path, PathBuf},
+        sync::{
+            Mutex,
+            atomic::{AtomicBool, Ordering},
+        },
+    };
+
+    #[derive(Debug, Clone, PartialEq, Eq)]
+    pub enum IoKind {
+        Create,
+        Write { offset: u64, data: Vec<u8> },
+        Truncate,
+        SyncAll,
+        Remove,
+    }
+
+    #[derive(Debug, Clone, PartialEq, Eq)]
+    pub struct IoEvent {
+        pub path: PathBuf,
+        pub kind: IoKind,
+    }
+
+    static RECORDING: AtomicBool = AtomicBool::new(false);
+    static EVENTS: Mutex<Vec<IoEvent>> = Mutex::new(Vec::new());
+
+    /// Starts recording (clears anything recorded before).
+    pub fn start_recording() {
+        EVENTS.lock().unwrap().clear();
+        RECORDING.store(true, Ordering::SeqCst);
+    }
+
+    /// Stops recording and returns the recorded events in issue order.
+    pub fn stop_recording() -> Vec<IoEvent> {
+        RECORDING.store(false, Ordering::SeqCst);
+        std::mem::take(&mut *EVENTS.lock().unwrap())
+    }
+
+    /// Number of events recorded so far.
+    pub fn event_count() -> usize {
+        EVENTS.lock().unwrap().len()
+    }
+
+    pub fn is_recording() -> bool {
+        RECORDING.load(Ordering::SeqCst)
+    }
+
+    pub(crate) fn report(path: &Path, kind: IoKind) {
+        if is_recording() {
+            EVENTS.lock().unwrap().push(IoEvent {
+                path: path.to_path_buf(),
+                kind,
+            });
+        }
+    }
+
+    pub(crate) fn report_write(path: &Path, offset: u64, data: &[u8]) {
+        report(
+            path,
+            IoKind::Write {
+                offset,
+                data: data.to_vec(),
+            },
+        );
+    }
+}
